@@ -699,6 +699,22 @@ func runC20(c *Ctx) {
 						if seen["call:(*Conn).greet"] || seen[lReadLine] {
 							reg = false
 						}
+						// the implicit-TLS handshake blocks on the peer: Close must be able to end it, so no path
+						// may run the handshake before the connection is registered
+						for _, hs := range s.Find(g, "call:(*tls.Conn).Handshake") {
+							if hs.Block() == in.Block() {
+								for _, y := range in.Block().Instrs {
+									if y == hs {
+										reg = false
+									}
+									if y == in {
+										break
+									}
+								}
+							} else if reachableFrom(hs.Block(), nil)[in.Block()] {
+								reg = false
+							}
+						}
 					}
 				case *ssa.Call:
 					if b, ok := x.Call.Value.(*ssa.Builtin); ok && b.Name() == "delete" && describe(x.Call.Args[0]) == "Server.conns" {
